@@ -333,11 +333,14 @@ def objLen (h : Heap) (o : Nat) : Nat := match h[o]? with
   | some ob => ob.rows.length
   | none => 0
 
-/-- `len(field.data)`; for a collection `Collection.__len__`: the length of its *first* field, 0
-when it has none. -/
+/-- the number of rows of a field as `Collection.__len__` reads it off the *first* field of a
+collection: `len(field.data)` of an array; for a collection field `CollectionField._num_rows()` — the
+length of the nested collection, or the `num_obs` the field remembers when the nested collection has
+no fields (after the `fix:`; before it an empty nested collection in first position made the length 0).
+`lenL` is `Collection.__len__`: 0 without fields. -/
 def Field.len (h : Heap) : Field → Nat
   | .leaf _ _ o _ _ _ => objLen h o
-  | .coll _ _ _ fs => lenL fs
+  | .coll _ no _ fs => if fs.isEmpty then no else lenL fs
 where lenL : List Field → Nat
   | [] => 0
   | f :: _ => Field.len h f
